@@ -10,7 +10,7 @@ NOTE = ("Trusted: Coq 8.16.1 kernel, gen/translate.py, extraction (ExtrOcamlBasi
 CLAIMED = {
     "C01": ("Reference loop semantics of all operation families as executable Gallina index plans (Spec/LoopSem.v) with theorems on the "
             "position arithmetic; Model/Lower.v models the lowering of rearrangements with nested flattened axes (reshape - transpose - "
-            "reshape as a term of Model/Opt.v) the alignment of element-wise inputs, the reshape / axis= / rearrangement around a reduction and the operand placement around matmul (with the sum-of-products theorem under a matmul hypothesis), and Props/C01.v proves that they put every element "
+            "reshape as a term of Model/Opt.v) also with new output axes (alignment + broadcast_to + reshape: output-only axes repeat the value), the alignment of element-wise inputs, the reshape / axis= / rearrangement around a reduction and the operand placement around matmul (with the sum-of-products theorem under a matmul hypothesis), and Props/C01.v proves that they put every element "
             "where the loop notation says, for all expressions and sizes; the graph einx traces for such calls is compared with the model's "
             "term by the extracted, proved-sound equivalence checker; every generated well-formed call of every family is evaluated by the extracted spec and compared with "
             "einx on numpy, numpy.numpylike, numpy.einsum (OperationNotSupportedError is the only other accepted outcome)",
@@ -53,7 +53,7 @@ CLAIMED.update({
             "theorem that symbolic execution equals a concrete store-passing execution for every interpretation of the primitives "
             "(history-dependent calls = mutation), hence agree => the text computes what the graph denotes (Props/C04.v). Every captured "
             "(optimised graph, text) pair is validated by the extracted checker; the text is also exec()-uted and compared with a direct "
-            "node-by-node evaluation of the real graph, with einx's own result, and with the cached callable's code object",
+            "node-by-node evaluation of the real graph, with einx's own result, and with the cached callable's code object; the generator of variable names inside compile() is regenerated (Gen/GenNames.v) and proved to hand out pairwise different names, never a keyword / builtin / hinted name, without ever running dry, and is executed next to the extracted model",
             "translation validation with a Coq-verified validator + differential execution", "DESIGN.md 3/C04"),
     "C05": ("Term model of the optimiser with numpy's row-major meaning of reshape/transpose; theorems norm_sound / equiv_sound / "
             "merge_transpose / merge_reshape / every-change-shrinks / no rewrite removes, duplicates or reorders a function application (Props/C05.v), rules instantiated from the regenerated Gen/GenOpt.v; "
@@ -94,9 +94,9 @@ CLAIMED.update({
 CLAIMED.update({
     "C06": ("Theorem (Props/C06.v): with numbers compared together with their type - which Gen/GenFreeze.v reads off lru_cache.py - equal cache "
             "keys are identical frozen arguments, so any outcome that is a function of the frozen arguments is the same for a hit and a miss; "
-            "the untyped comparison of the pinned tree is refuted (2 vs 2.0). Histories of calls (ops, solve_*, graph=True, with-blocks, failing "
+            "the untyped comparison of the pinned tree is refuted (2 vs 2.0), and so is comparison by type and == alone (0.0 vs -0.0); the placeholders that _to_tracer builds for tensor arguments and the attributes their __eq__ compares are regenerated (Gen/GenTracerKey.v): equal placeholders are identical, the cache over keys of frozen values and placeholders is transparent for every history, and the placeholder model is run against _to_tracer / == on 2025 argument pairs. Histories of calls (ops, solve_*, graph=True, with-blocks, failing "
             "calls of every stage, equal-but-not-identical arguments) run in one process are compared call by call with pristine forked processes",
-            "Coq theorem on the cache key + warm-vs-pristine differential histories", "DESIGN.md 3/C06"),
+            "Coq theorems on the cache key incl. tensor placeholders (regenerated comparison) + model/implementation correspondence + warm-vs-pristine differential histories", "DESIGN.md 3/C06"),
     "C07": ("Theorems (Props/C07.v) on the reference semantics: a number is an axis with a name of its own (injective renaming never moves an "
             "element), regrouping with parentheses is irrelevant; on the parser model: doubled spaces change nothing; on the lowering model: "
             "automatic brackets are exactly the axes missing from the output (tied through C01's graph correspondence); every other documented shorthand (implicit output, automatic brackets, "
